@@ -329,6 +329,7 @@ func Run(p *load.Prog, r *oblig.Report) {
 	r.Rule("E7.O3", "instance-table", "every accepted userset is type ':' id '#' relation with exactly one ':' and one '#', each part accepted by its validator", 1)
 	r.Rule("E7.O4", "instance-table", "userset, object and typed wildcard are pairwise disjoint and ValidateUser is exactly their union", 4)
 	r.Rule("E7.O5", "instance-table", "length limits: type 1..254, relation and condition 1..50, object within 2..256 with 256 attained; ValidateObject and ValidateUserObject accept the same strings", 6)
+	r.Rule("E7.W", "instance-table", "the whitespace the rule strings exclude is Unicode whitespace, not only the five ASCII characters of RE2's \\s", 1)
 	r.Rule("E7.ID", "instance-table", "the five rule strings of the Go package are byte-identical to those in validate-rules.ts and Validator.java", 10)
 
 	ex, problems := extractGo(p)
@@ -827,5 +828,21 @@ func crossLanguage(p *load.Prog, ex *extracted, r *oblig.Report) {
 				r.OK("E7.ID", "java:"+short, "pkg/java/.../Validator.java", "byte-identical", v)
 			}
 		}
+	}
+	// E7.W: which characters "whitespace" is. The rule strings exclude it with \s inside a negated class; the class
+	// \s of Go's regexp (RE2) is [\t\n\f\r ] only. The vertical tab, NEL, the no-break space, the Unicode space
+	// separators, LS / PS and the BOM — whitespace for the \s of the JS and Java engines that read the same strings,
+	// and for unicode.IsSpace — are therefore accepted inside types, relations and ids by the Go validators.
+	var users []string
+	for _, n := range names {
+		if v, ok := ex.consts[n]; ok && strings.Contains(v, `\s`) {
+			users = append(users, n)
+		}
+	}
+	sort.Strings(users)
+	if len(users) > 0 {
+		r.Bad("E7.W", "engine-whitespace", "pkg/go/validation/validation-rules.go", "the rule strings "+strings.Join(users, ", ")+" exclude whitespace with \\s; under RE2 that is [\\t\\n\\f\\r ] only, so \"\\v\", U+0085, U+00A0, U+2028, U+3000 … are accepted inside a type, relation or id (ValidateType(\"\\v\") is true) while the JS and Java packages, reading the same strings, reject them")
+	} else {
+		r.OK("E7.W", "engine-whitespace", "pkg/go/validation/validation-rules.go", "no-\\s", "no rule string relies on the engine's \\s")
 	}
 }
